@@ -3,6 +3,7 @@ import StepModel.P21.ReaderLemmas15
 import StepModel.P21.ReaderLemmas16
 import StepModel.P21.ReaderLemmas19
 import StepModel.P21.ReaderLemmas20
+import StepModel.P21.ReaderLemmas21
 import StepModel.Generated.P21RWGen
 /-! # C03 — the reader never reports a violating file as clean: property theorems
 
@@ -1048,6 +1049,75 @@ def AnyStepOK {F} (env : Env F) (strict : Bool) : AnyStep F → Prop
       (∀ c ∈ r.parts, (env.dict.entity? c.name).isSome = true) ∧
       ∀ c ∈ r.parts, CPartOKF env (env.cfg.complexPartStrict.getD strict) c
 
+/-- pass 1 on a record of `AnyStepOK` -/
+theorem anyStep_item1 {F} (ops : FloatOps F) (lex : LexCfg) (cfg : RWCfg) (d : Dict) (strict : Bool)
+    (hskip : cfg.skipInstanceSkipsComments = true) (lk : Lookup) (y : AnyStep F)
+    (h : AnyStepOK { ops := ops, lex := lex, cfg := cfg, dict := d, lookup := lk } strict y) : Item1OK cfg d (y.item d) := by
+  cases y with
+  | simple x =>
+    obtain ⟨⟨hl, hg, hscan, e, he, habs⟩, _⟩ := h
+    have he' : d.entity? x.r.name = some e := he
+    refine ⟨hg, rfl, ?_⟩
+    intro m hnone l c k hc h47 h92
+    obtain ⟨l', h⟩ := createInstance_rec cfg hskip d m x.r hl hscan hnone e he' habs l x.g hg c k hc h47 h92
+    refine ⟨l', ?_⟩
+    show createInstance cfg d m (G l (x.r.text [] ++ (x.g ++ c :: k)) false) = _
+    rw [text_nil_append, h]
+    simp [AnyStep.item, mkInst, Step.rg, he']
+  | complex r g =>
+    obtain ⟨hl, hg, hlegal, _, _⟩ := h
+    refine ⟨hg, rfl, ?_⟩
+    intro m hnone l c k hc h47 h92
+    obtain ⟨l', h⟩ := createInstance_crec cfg hskip d m r hl hnone hlegal l g hg c k hc h47 h92
+    refine ⟨l', ?_⟩
+    show createInstance cfg d m (G l (r.text [] ++ (g ++ c :: k)) false) = _
+    rw [ctext_nil_append]
+    exact h
+
+/-- pass 2 on a record of `AnyStepOK`, `skipws` off before and after -/
+theorem anyStep_item2 {F} (ops : FloatOps F) (lex : LexCfg) (cfg : RWCfg) (d : Dict) (strict : Bool)
+    (hskip : cfg.skipInstanceSkipsComments = true) (hrs : cfg.errorResyncsFromStart = true)
+    (hrep : cfg.complexReportsError = true) (lk : Lookup) (y : AnyStep F)
+    (h : AnyStepOK { ops := ops, lex := lex, cfg := cfg, dict := d, lookup := lk } strict y) :
+    Item2OKF ops lex cfg d strict lk (y.item d) := by
+  cases y with
+  | simple x =>
+    obtain ⟨_, h2⟩ := h
+    rcases h2 with ⟨hlex, hg, hscan, qs, e, hqs, hpar, hent, hattrs, hsv, hout⟩ | ⟨hlex, hg, hscan, hle, e, vals, hent, hout, hrd⟩
+    · refine ⟨hg, rfl, by show x.out.id = x.r.id; rw [hout], by show keyOf x.out = keyOf (mkInst d x.rg); rw [hout]; rfl, ?_⟩
+      intro st l rest hfind hlk hs
+      have hs' : st.s = G l (x.r.text rest) false := by rw [← text_nil_append]; exact hs
+      obtain ⟨l', h⟩ := readInstance_params ops lex cfg d strict hskip st x.r hlex qs hqs
+        (by intro q hq; rw [hlk]; exact hpar q hq) hscan l rest hs' (mkInst d x.rg) hfind rfl rfl
+        { name := x.r.name, vals := match d.entity? x.r.name with | some e => defaults e.attrs | none => [] } rfl e hent hattrs
+      refine ⟨l', ?_⟩
+      show readInstance ops lex cfg d strict st = .ok { s := G l' rest false, inst := some x.out, reported := some x.sev, left := some .null }
+      rw [h, hout, hsv]
+      rfl
+    · refine ⟨hg, rfl, by show x.out.id = x.r.id; rw [hout], by show keyOf x.out = keyOf (mkInst d x.rg); rw [hout]; rfl, ?_⟩
+      intro st l rest hfind hlk hs
+      have hs' : st.s = G l (x.r.text rest) false := by rw [← text_nil_append]; exact hs
+      obtain ⟨l', h⟩ := C03_error_resync_confines ops lex cfg d strict hrs hskip st x.r hlex hscan l rest false hs'
+        (mkInst d x.rg) hfind rfl rfl
+        { name := x.r.name, vals := match d.entity? x.r.name with | some e => defaults e.attrs | none => [] } rfl e hent
+        x.sev vals (by intro L; rw [hlk]; exact hrd L rest) hle
+      refine ⟨l', ?_⟩
+      show readInstance ops lex cfg d strict st = .ok { s := G l' rest false, inst := some x.out, reported := some x.sev, left := some .null }
+      rw [h, hout]
+      rfl
+  | complex r g =>
+    obtain ⟨hl, hg, hlegal, hknown, hparts⟩ := h
+    refine ⟨hg, rfl, rfl, ?_, ?_⟩
+    · show keyOf (finCInstOf d r) = keyOf (mkCInst d r)
+      simp only [keyOf, finCInstOf, setParts_names]
+    · intro st l rest hfind hlk hs
+      have hs' : st.s = G l (r.text rest) false := by rw [← ctext_nil_append]; exact hs
+      obtain ⟨l', sk', hsk, h⟩ := readInstance_crec_flag ops lex cfg d strict st hrep r hl l rest false hs' (mkCInst d r) hfind rfl rfl
+        (fun c hc => by rw [hlk]; exact hparts c hc) (mkCInst_names d r hknown)
+      have : sk' = false := by rcases hsk with h | h <;> exact h
+      subst this
+      exact ⟨l', h⟩
+
 /-- **the violation is confined, externally mapped records included** (`_partial`): `C03_violation_confined_partial` for a
     data section in which conforming externally mapped records stand between the internally mapped ones, in any order and
     number.  A violating (`Marked` with a severity, or `Flawed`) internally mapped record leaves every externally mapped
@@ -1076,68 +1146,13 @@ theorem C03_violation_confined_mixed_partial {F} (ops : FloatOps F) (lex : LexCf
       (by
         intro x hx
         obtain ⟨y, hym, rfl⟩ := List.mem_map.mp hx
-        cases y with
-        | simple x =>
-          obtain ⟨⟨hl, hg, hscan, e, he, habs⟩, _⟩ := hok _ hym
-          have he' : d.entity? x.r.name = some e := he
-          refine ⟨hg, rfl, ?_⟩
-          intro m hnone l c k hc h47 h92
-          obtain ⟨l', h⟩ := createInstance_rec cfg hskip d m x.r hl hscan hnone e he' habs l x.g hg c k hc h47 h92
-          refine ⟨l', ?_⟩
-          show createInstance cfg d m (G l (x.r.text [] ++ (x.g ++ c :: k)) false) = _
-          rw [text_nil_append, h]
-          simp [AnyStep.item, mkInst, Step.rg, he']
-        | complex r g =>
-          obtain ⟨hl, hg, hlegal, _, _⟩ := hok _ hym
-          refine ⟨hg, rfl, ?_⟩
-          intro m hnone l c k hc h47 h92
-          obtain ⟨l', h⟩ := createInstance_crec cfg hskip d m r hl hnone hlegal l g hg c k hc h47 h92
-          refine ⟨l', ?_⟩
-          show createInstance cfg d m (G l (r.text [] ++ (g ++ c :: k)) false) = _
-          rw [ctext_nil_append]
-          exact h)
+        exact anyStep_item1 ops lex cfg d strict hskip _ y (hok y hym))
       (by simpa [xs, List.map_map, Function.comp_def] using hnd)
       (by
         intro x hx
         obtain ⟨y, hym, rfl⟩ := List.mem_map.mp hx
         rw [hmk]
-        cases y with
-        | simple x =>
-          obtain ⟨_, h2⟩ := hok _ hym
-          rcases h2 with ⟨hlex, hg, hscan, qs, e, hqs, hpar, hent, hattrs, hsv, hout⟩ | ⟨hlex, hg, hscan, hle, e, vals, hent, hout, hrd⟩
-          · refine ⟨hg, rfl, by show x.out.id = x.r.id; rw [hout], by show keyOf x.out = keyOf (mkInst d x.rg); rw [hout]; rfl, ?_⟩
-            intro st l rest hfind hlk hs
-            have hs' : st.s = G l (x.r.text rest) false := by rw [← text_nil_append]; exact hs
-            obtain ⟨l', h⟩ := readInstance_params ops lex cfg d strict hskip st x.r hlex qs hqs
-              (by intro q hq; rw [hlk]; exact hpar q hq) hscan l rest hs' (mkInst d x.rg) hfind rfl rfl
-              { name := x.r.name, vals := match d.entity? x.r.name with | some e => defaults e.attrs | none => [] } rfl e hent hattrs
-            refine ⟨l', ?_⟩
-            show readInstance ops lex cfg d strict st = .ok { s := G l' rest false, inst := some x.out, reported := some x.sev, left := some .null }
-            rw [h, hout, hsv]
-            rfl
-          · refine ⟨hg, rfl, by show x.out.id = x.r.id; rw [hout], by show keyOf x.out = keyOf (mkInst d x.rg); rw [hout]; rfl, ?_⟩
-            intro st l rest hfind hlk hs
-            have hs' : st.s = G l (x.r.text rest) false := by rw [← text_nil_append]; exact hs
-            obtain ⟨l', h⟩ := C03_error_resync_confines ops lex cfg d strict hrs hskip st x.r hlex hscan l rest false hs'
-              (mkInst d x.rg) hfind rfl rfl
-              { name := x.r.name, vals := match d.entity? x.r.name with | some e => defaults e.attrs | none => [] } rfl e hent
-              x.sev vals (by intro L; rw [hlk]; exact hrd L rest) hle
-            refine ⟨l', ?_⟩
-            show readInstance ops lex cfg d strict st = .ok { s := G l' rest false, inst := some x.out, reported := some x.sev, left := some .null }
-            rw [h, hout]
-            rfl
-        | complex r g =>
-          obtain ⟨hl, hg, hlegal, hknown, hparts⟩ := hok _ hym
-          refine ⟨hg, rfl, rfl, ?_, ?_⟩
-          · show keyOf (finCInstOf d r) = keyOf (mkCInst d r)
-            simp only [keyOf, finCInstOf, setParts_names]
-          · intro st l rest hfind hlk hs
-            have hs' : st.s = G l (r.text rest) false := by rw [← ctext_nil_append]; exact hs
-            obtain ⟨l', sk', hsk, h⟩ := readInstance_crec_flag ops lex cfg d strict st hrep r hl l rest false hs' (mkCInst d r) hfind rfl rfl
-              (fun c hc => by rw [hlk]; exact hparts c hc) (mkCInst_names d r hknown)
-            have : sk' = false := by rcases hsk with h | h <;> exact h
-            subst this
-            exact ⟨l', h⟩)
+        exact anyStep_item2 ops lex cfg d strict hskip hrs hrep _ y (hok y hym))
   refine ⟨res, hr, ?_, ?_, ?_, ?_, ?_⟩
   · rw [hm]; simp [xs, List.map_map, Function.comp_def]
   · rw [hrp]; simp [xs, List.map_map, Function.comp_def]
@@ -1663,6 +1678,111 @@ theorem C03_missing_equals_record_skipped {F} (ops : FloatOps F) (lex : LexCfg) 
   ⟨fun m h l rest => createInstance_noeq cfg hskip d m r hlex hscan h l rest,
    fun st h l rest hs => readInstance_noeq ops lex cfg d strict hskip st r hlex hscan l rest hs h⟩
 
+/-! ### every record shape in one data section: kept records of either mapping, skipped records of either kind -/
+
+theorem textNoEq_nil_append {F} (r : Rec F) (rest : List Byte) : r.textNoEq [] ++ rest = r.textNoEq rest := by
+  simp [Rec.textNoEq, Rec.t2, Rec.t3, Rec.t4, List.append_assoc]
+
+/-- a record of a data section: one that is created and read (`kept`: internally mapped with its outcome, or a conforming
+    externally mapped one), one whose keyword names no (or an abstract) entity, or one whose `=` is missing -/
+inductive FileRec (F : Type) where
+  | kept (y : AnyStep F)
+  | unknown (x : Step F)
+  | noeq (r : Rec F) (g : List Byte)
+
+/-- the record as the loops of the two passes see it, and whether pass 1 creates an instance for it -/
+def FileRec.item {F} (d : Dict) : FileRec F → Item F × Bool
+  | .kept y => (y.item d, true)
+  | .unknown x => ({ body := x.r.text [], g := x.g, id := x.r.id, mkI := { id := x.r.id, parts := [] },
+                     out := { id := x.r.id, parts := [] }, sev := .null }, false)
+  | .noeq r g => ({ body := r.textNoEq [], g := g, id := r.id, mkI := { id := r.id, parts := [] },
+                    out := { id := r.id, parts := [] }, sev := .null }, false)
+
+def FileRecOK {F} (env : Env F) (strict : Bool) : FileRec F → Prop
+  | .kept y => AnyStepOK env strict y
+  | .unknown x => RecSkip env.dict x
+  | .noeq r g => r.Lex ∧ Seps g ∧ ∀ q ∈ r.ps, ParamScan q
+
+/-- **confinement over every record shape proved so far** (`_partial`): the data section is any sequence - any order,
+    number and layout, pairwise different ids - of (a) internally mapped records that are `Marked` or `Flawed`,
+    (b) conforming externally mapped records, (c) records whose keyword names no entity or an abstract one, (d) records
+    whose `=` is missing (`#id NAME(…);`).  Pass 1 creates exactly the records of (a) and (b) and counts the others not
+    created; pass 2 reads every record of (a) and (b) to exactly the outcome it has on its own (references resolve against
+    the instances that were created), skips the others and counts them invalid; the severities reported are those of the
+    records read, in file order; and one skipped record, or one record read with a severity worse than a user message,
+    makes p21read exit with 1.  (Duplicate ids have their own theorem, `C03_duplicate_id_confined_partial`: their
+    invariant is positional.) -/
+theorem C03_confined_every_record_shape_partial {F} (ops : FloatOps F) (lex : LexCfg) (cfg : RWCfg) (d : Dict) (strict : Bool)
+    (hskip : cfg.skipInstanceSkipsComments = true) (hrs : cfg.errorResyncsFromStart = true)
+    (hrep : cfg.complexReportsError = true)
+    (ys : List (FileRec F)) (g0 sp gE after : List Byte) (hg0 : Seps g0) (hsp : sp.all isSpace = true) (hgE : Seps gE)
+    (hnd : (ys.map (fun y => (y.item d).1.id)).Nodup)
+    (hok : ∀ y ∈ ys, FileRecOK { ops := ops, lex := lex, cfg := cfg, dict := d,
+                                 lookup := Mgr.lookup d ({ insts := (keptI (ys.map (FileRec.item d))).map (·.mkI) } : Mgr F) } strict y) :
+    ∃ res, readDataSection ops lex cfg d strict false
+        (g0 ++ renderItems ((ys.map (FileRec.item d)).map (·.1)) (endsec sp (gE ++ (endIso ++ 59 :: after)))) = .ok res ∧
+      res.mgr.insts = (keptI (ys.map (FileRec.item d))).map (·.out) ∧
+      res.reported = ((keptI (ys.map (FileRec.item d))).map (·.sev)).reverse ∧
+      res.created = (keptI (ys.map (FileRec.item d))).length ∧ res.notCreated = nskipI (ys.map (FileRec.item d)) ∧
+      res.valid = (keptI (ys.map (FileRec.item d))).length ∧ res.invalid = nskipI (ys.map (FileRec.item d)) ∧
+      (0 < nskipI (ys.map (FileRec.item d)) → exitStatus res.sev = 1) ∧
+      ((∃ x ∈ keptI (ys.map (FileRec.item d)), x.sev.toInt < Sev.usermsg.toInt) → exitStatus res.sev = 1) := by
+  obtain ⟨res, hr, hm, hsev, hc, hnc, hv, hinv, hrp⟩ :=
+    readDataSection_itemsX ops lex cfg d strict sp _ hsp (tailOK_endIso gE hgE after) (ys.map (FileRec.item d)) g0 hg0
+      (by simpa [List.map_map, Function.comp_def] using hnd)
+      (by
+        intro z hz
+        obtain ⟨y, hy, rfl⟩ := List.mem_map.mp hz
+        cases y with
+        | kept y =>
+          simp only [FileRec.item, if_true]
+          exact anyStep_item1 ops lex cfg d strict hskip _ y (hok _ hy)
+        | unknown x =>
+          simp only [FileRec.item, Bool.false_eq_true, if_false]
+          obtain ⟨hlex, hg, hscan, hunk⟩ := hok _ hy
+          refine ⟨hg, ?_⟩
+          intro m hnone l rest
+          obtain ⟨l', h⟩ := createInstance_unknown cfg hskip d m x.r hlex hscan hnone hunk l rest
+          exact ⟨l', by show createInstance cfg d m (G l (x.r.text [] ++ rest) false) = _; rw [text_nil_append]; exact h⟩
+        | noeq r g =>
+          simp only [FileRec.item, Bool.false_eq_true, if_false]
+          obtain ⟨hlex, hg, hscan⟩ := hok _ hy
+          refine ⟨hg, ?_⟩
+          intro m hnone l rest
+          obtain ⟨l', h⟩ := createInstance_noeq cfg hskip d m r hlex hscan hnone l rest
+          exact ⟨l', by show createInstance cfg d m (G l (r.textNoEq [] ++ rest) false) = _; rw [textNoEq_nil_append]; exact h⟩)
+      (by
+        intro z hz
+        obtain ⟨y, hy, rfl⟩ := List.mem_map.mp hz
+        cases y with
+        | kept y =>
+          simp only [FileRec.item, if_true]
+          exact anyStep_item2 ops lex cfg d strict hskip hrs hrep _ y (hok _ hy)
+        | unknown x =>
+          simp only [FileRec.item, Bool.false_eq_true, if_false]
+          obtain ⟨hlex, hg, hscan, _⟩ := hok _ hy
+          refine ⟨hg, ?_⟩
+          intro st l rest hnf hs
+          have hs' : st.s = G l (x.r.text rest) false := by rw [← text_nil_append]; exact hs
+          exact readInstance_notfound ops lex cfg d strict hskip st x.r hlex hscan l rest hs' hnf
+        | noeq r g =>
+          simp only [FileRec.item, Bool.false_eq_true, if_false]
+          obtain ⟨hlex, hg, hscan⟩ := hok _ hy
+          refine ⟨hg, ?_⟩
+          intro st l rest hnf hs
+          have hs' : st.s = G l (r.textNoEq rest) false := by rw [← textNoEq_nil_append]; exact hs
+          exact readInstance_noeq ops lex cfg d strict hskip st r hlex hscan l rest hs' hnf)
+  refine ⟨res, hr, hm, hrp, hc, hnc, hv, hinv, ?_, ?_⟩
+  · intro hpos
+    rw [C03_exit_iff_worse_than_usermsg, hsev, if_pos hpos]
+    exact Int.lt_of_le_of_lt (greater_le_right _ _) (by decide)
+  · rintro ⟨x, hx, hb⟩
+    rw [C03_exit_iff_worse_than_usermsg, hsev]
+    have hbad := errAfterI_bad (keptI (ys.map (FileRec.item d))) x hx hb
+    split
+    · exact Int.lt_of_le_of_lt (greater_le_left _ _) (hbad _)
+    · exact hbad _
+
 /-- **a violation inside a typed select value**: `KEYWORD blanks ( blanks value )` for a select attribute where the keyword
     names a non-entity member and the value between the parentheses is read with WARNING (`LeafRdS`, e.g.
     `LeafRdS.integer_junk`: `CNT_T('a')`): the attribute reader returns WARNING with the member chosen and the value unset,
@@ -1932,16 +2052,12 @@ def mxPartA : CPart Nat := { n0 := 65, ns := [], sA := [], body := renderParams 
 def mxPartB : CPart Nat := { n0 := 66, ns := [], sA := [], body := renderParams [mxP7], sB := [], vals := [mxP7.v] }
 def mxCRec : CRec Nat := { ds := [50], s1 := [], s2 := [], parts := [mxPartA, mxPartB], s4 := [] }
 def mxSteps : List (AnyStep Nat) := [.simple wBad, .complex mxCRec [10]]
-def mxEnv : Env Nat :=
-  { ops := dblOps, lex := Generated.rwLexCfg, cfg := Generated.rwCfg, dict := mxDict,
-    lookup := Mgr.lookup mxDict ({ insts := mxSteps.map (fun y => (y.item mxDict).mkI) } : Mgr Nat) }
+def mxEnvL (lk : Lookup) : Env Nat :=
+  { ops := dblOps, lex := Generated.rwLexCfg, cfg := Generated.rwCfg, dict := mxDict, lookup := lk }
 def mxStrict : Bool := Generated.rwCfg.complexPartStrict.getD false
 
-theorem C03_violation_confined_mixed_witness :
-    ∃ res, readDataSection dblOps Generated.rwLexCfg Generated.rwCfg mxDict false false
-        ([10] ++ renderItems (mxSteps.map (AnyStep.item mxDict)) (endsec [] ([10] ++ (endIso ++ 59 :: [10])))) = .ok res ∧
-      res.mgr.insts = [wBad.out, finCInstOf mxDict mxCRec] ∧ res.reported = [Sev.null, Sev.warning] ∧
-      exitStatus res.sev = 1 := by
+/-- the records of the witness file satisfy `AnyStepOK`, whatever the lookup -/
+theorem mxSteps_ok (lk : Lookup) : ∀ y ∈ mxSteps, AnyStepOK (mxEnvL lk) false y := by
   have sepsNil : Seps ([] : List Byte) := Seps.blanks [] (by decide)
   have sepsNl : Seps ([10] : List Byte) := Seps.blanks [10] (by decide)
   have hlexB : wBad.r.Lex := ⟨by decide, by decide, by decide, sepsNil, sepsNil, sepsNil, sepsNil, by decide, by decide, by decide⟩
@@ -1960,56 +2076,96 @@ theorem C03_violation_confined_mixed_witness :
     intro env strict a d hcri hty hder hred hd hi hlo hhi h47 h92
     refine ⟨hred, ⟨d, [], rfl, digit_not_space hd, h47, h92⟩, sepsNil, fun l sk dl rest hdl => ⟨sk, Or.inl rfl, ?_⟩⟩
     exact attr_integer env strict a hty hder hcri [d] hi hlo hhi l sk [] sepsNil dl rest hdl
+  intro y hy
+  simp only [mxSteps, List.mem_cons, List.not_mem_nil, or_false] at hy
+  rcases hy with rfl | rfl
+  · refine ⟨⟨hlexB, sepsNl, hscanB, _, hentA, rfl⟩, Or.inl ⟨hlexB, sepsNl, hscanB,
+      [(({ a := wAttrX, v := .one (.atom .unset), tok := [88], before := [], after := [] } : Param Nat), Sev.warning)], _, rfl, ?_, hentA, rfl, rfl, rfl⟩⟩
+    intro q hq
+    simp only [List.mem_singleton] at hq
+    subst hq
+    exact C03_wrong_kind_for_integer_detected _ false wAttrX rfl rfl rfl 88 [] (by decide) (by decide) (by decide) (by decide)
+      (by decide) (by decide) (by decide) (by show ∀ b ∈ [(88 : Byte)], delimAt Generated.rwLexCfg attrDelims b = false; decide)
+      (by intro _ b hb; simp only [List.mem_singleton] at hb; subst hb; decide)
+      [] sepsNil
+  · refine ⟨⟨by decide, by decide, by decide, sepsNil, sepsNil, sepsNil, List.cons_ne_nil _ _, ?_⟩, sepsNl,
+      (by show mxDict.complexSets.contains (sortNames ((mxCRec.parts.map (·.name)).filter (fun n => (mxDict.entity? n).isSome))) = true; decide), ?_, ?_⟩
+    · intro c hc
+      simp only [mxCRec, List.mem_cons, List.not_mem_nil, or_false] at hc
+      rcases hc with rfl | rfl
+      · exact ⟨by decide, by decide, by decide, by decide, [53], rfl, Bal.plain 53 [] (by decide) (by decide) (by decide) Bal.nil⟩
+      · exact ⟨by decide, by decide, by decide, by decide, [55], rfl, Bal.plain 55 [] (by decide) (by decide) (by decide) Bal.nil⟩
+    · intro c hc
+      simp only [mxCRec, List.mem_cons, List.not_mem_nil, or_false] at hc
+      rcases hc with rfl | rfl
+      · show (mxDict.entity? mxPartA.name).isSome = true; decide
+      · show (mxDict.entity? mxPartB.name).isSome = true; decide
+    · intro c hc
+      simp only [mxCRec, List.mem_cons, List.not_mem_nil, or_false] at hc
+      have e1 : accum .null [Sev.null] = .null := by decide
+      rcases hc with rfl | rfl
+      · refine ⟨by decide, by decide, by decide, by decide, _, hentA, ?_⟩
+        intro l sk rest
+        obtain ⟨sk', hsk, h⟩ := instSTEPread_params_sev (mxEnvL lk) mxStrict [(mxP5, Sev.null)] (List.cons_ne_nil _ _)
+          (by
+            intro q hq
+            simp only [List.mem_singleton] at hq
+            subst hq
+            exact hint (mxEnvL lk) mxStrict wAttrX 53 (by show Generated.rwLexCfg.criSkipsComments = true; decide) rfl rfl rfl (by decide) (by decide) (by decide) (by decide) (by decide) (by decide)) l sk rest
+        have e2 : aaccum [(mxP5, Sev.null)] = .null := by decide
+        rw [e2] at h
+        exact ⟨sk', hsk, h⟩
+      · refine ⟨by decide, by decide, by decide, by decide, _, hentB, ?_⟩
+        intro l sk rest
+        obtain ⟨sk', hsk, h⟩ := instSTEPread_params_sev (mxEnvL lk) mxStrict [(mxP7, Sev.null)] (List.cons_ne_nil _ _)
+          (by
+            intro q hq
+            simp only [List.mem_singleton] at hq
+            subst hq
+            exact hint (mxEnvL lk) mxStrict wAttrY 55 (by show Generated.rwLexCfg.criSkipsComments = true; decide) rfl rfl rfl (by decide) (by decide) (by decide) (by decide) (by decide) (by decide)) l sk rest
+        have e2 : aaccum [(mxP7, Sev.null)] = .null := by decide
+        rw [e2] at h
+        exact ⟨sk', hsk, h⟩
+
+theorem C03_violation_confined_mixed_witness :
+    ∃ res, readDataSection dblOps Generated.rwLexCfg Generated.rwCfg mxDict false false
+        ([10] ++ renderItems (mxSteps.map (AnyStep.item mxDict)) (endsec [] ([10] ++ (endIso ++ 59 :: [10])))) = .ok res ∧
+      res.mgr.insts = [wBad.out, finCInstOf mxDict mxCRec] ∧ res.reported = [Sev.null, Sev.warning] ∧
+      exitStatus res.sev = 1 := by
+  have sepsNl : Seps ([10] : List Byte) := Seps.blanks [10] (by decide)
   obtain ⟨res, hr, hm, hrep, _, _, hex⟩ := C03_violation_confined_mixed_partial dblOps Generated.rwLexCfg Generated.rwCfg mxDict false
     (by decide) (by decide) (by decide) mxSteps [10] [] [10] [10] sepsNl (by decide) sepsNl (by decide)
+    (fun y hy => mxSteps_ok _ y hy)
+  exact ⟨res, hr, hm, hrep, hex ⟨.simple wBad, by simp [mxSteps], by decide⟩⟩
+
+/-- `#1=A(X);⏎#2=(A(5)B(7));⏎#3 A(5);⏎` - a violating internally mapped record, a conforming externally mapped one and a
+    record without its `=`: `C03_confined_every_record_shape_partial` applies; two instances with their own outcomes, one
+    record not created and skipped, exit 1 -/
+def mxNoEq : Rec Nat := { ds := [51], s1 := [], s2 := [32], n0 := 65, ns := [], s3 := [], ps := [mxP5], s4 := [] }
+def mxFile : List (FileRec Nat) := [.kept (.simple wBad), .kept (.complex mxCRec [10]), .noeq mxNoEq [10]]
+
+theorem C03_confined_every_record_shape_witness :
+    ∃ res, readDataSection dblOps Generated.rwLexCfg Generated.rwCfg mxDict false false
+        ([10] ++ renderItems ((mxFile.map (FileRec.item mxDict)).map (·.1)) (endsec [] ([10] ++ (endIso ++ 59 :: [10])))) = .ok res ∧
+      res.mgr.insts = [wBad.out, finCInstOf mxDict mxCRec] ∧ res.reported = [Sev.null, Sev.warning] ∧
+      res.created = 2 ∧ res.notCreated = 1 ∧ res.invalid = 1 ∧ exitStatus res.sev = 1 := by
+  have sepsNil : Seps ([] : List Byte) := Seps.blanks [] (by decide)
+  have sepsNl : Seps ([10] : List Byte) := Seps.blanks [10] (by decide)
+  obtain ⟨res, hr, hm, hrep, hc, hnc, _, hinv, hex, _⟩ := C03_confined_every_record_shape_partial dblOps Generated.rwLexCfg
+    Generated.rwCfg mxDict false (by decide) (by decide) (by decide) mxFile [10] [] [10] [10] sepsNl (by decide) sepsNl (by decide)
     (by
       intro y hy
-      simp only [mxSteps, List.mem_cons, List.not_mem_nil, or_false] at hy
-      rcases hy with rfl | rfl
-      · refine ⟨⟨hlexB, sepsNl, hscanB, _, hentA, rfl⟩, Or.inl ⟨hlexB, sepsNl, hscanB,
-          [(({ a := wAttrX, v := .one (.atom .unset), tok := [88], before := [], after := [] } : Param Nat), Sev.warning)], _, rfl, ?_, hentA, rfl, rfl, rfl⟩⟩
+      simp only [mxFile, List.mem_cons, List.not_mem_nil, or_false] at hy
+      rcases hy with rfl | rfl | rfl
+      · exact mxSteps_ok _ (.simple wBad) (by simp [mxSteps])
+      · exact mxSteps_ok _ (.complex mxCRec [10]) (by simp [mxSteps])
+      · refine ⟨⟨by decide, by decide, by decide, sepsNil, Seps.blanks [32] (by decide), sepsNil, sepsNil, by decide, by decide, by decide⟩,
+          sepsNl, ?_⟩
         intro q hq
-        simp only [List.mem_singleton] at hq
+        simp only [mxNoEq, List.mem_singleton] at hq
         subst hq
-        exact C03_wrong_kind_for_integer_detected _ false wAttrX rfl rfl rfl 88 [] (by decide) (by decide) (by decide) (by decide)
-          (by decide) (by decide) (by decide) (by decide) (by intro _ b hb; simp only [List.mem_singleton] at hb; subst hb; decide)
-          [] sepsNil
-      · refine ⟨⟨by decide, by decide, by decide, sepsNil, sepsNil, sepsNil, List.cons_ne_nil _ _, ?_⟩, sepsNl, by decide, ?_, ?_⟩
-        · intro c hc
-          simp only [mxCRec, List.mem_cons, List.not_mem_nil, or_false] at hc
-          rcases hc with rfl | rfl
-          · exact ⟨by decide, by decide, by decide, by decide, [53], rfl, Bal.plain 53 [] (by decide) (by decide) (by decide) Bal.nil⟩
-          · exact ⟨by decide, by decide, by decide, by decide, [55], rfl, Bal.plain 55 [] (by decide) (by decide) (by decide) Bal.nil⟩
-        · intro c hc
-          simp only [mxCRec, List.mem_cons, List.not_mem_nil, or_false] at hc
-          rcases hc with rfl | rfl <;> decide
-        · intro c hc
-          simp only [mxCRec, List.mem_cons, List.not_mem_nil, or_false] at hc
-          have e1 : accum .null [Sev.null] = .null := by decide
-          rcases hc with rfl | rfl
-          · refine ⟨by decide, by decide, by decide, by decide, _, hentA, ?_⟩
-            intro l sk rest
-            obtain ⟨sk', hsk, h⟩ := instSTEPread_params_sev mxEnv mxStrict [(mxP5, Sev.null)] (List.cons_ne_nil _ _)
-              (by
-                intro q hq
-                simp only [List.mem_singleton] at hq
-                subst hq
-                exact hint mxEnv mxStrict wAttrX 53 (by decide) rfl rfl rfl (by decide) (by decide) (by decide) (by decide) (by decide) (by decide)) l sk rest
-            have e2 : aaccum [(mxP5, Sev.null)] = .null := by decide
-            rw [e2] at h
-            exact ⟨sk', hsk, h⟩
-          · refine ⟨by decide, by decide, by decide, by decide, _, hentB, ?_⟩
-            intro l sk rest
-            obtain ⟨sk', hsk, h⟩ := instSTEPread_params_sev mxEnv mxStrict [(mxP7, Sev.null)] (List.cons_ne_nil _ _)
-              (by
-                intro q hq
-                simp only [List.mem_singleton] at hq
-                subst hq
-                exact hint mxEnv mxStrict wAttrY 55 (by decide) rfl rfl rfl (by decide) (by decide) (by decide) (by decide) (by decide) (by decide)) l sk rest
-            have e2 : aaccum [(mxP7, Sev.null)] = .null := by decide
-            rw [e2] at h
-            exact ⟨sk', hsk, h⟩)
-  exact ⟨res, hr, hm, hrep, hex ⟨.simple wBad, by simp [mxSteps], by decide⟩⟩
+        exact ⟨(Passes.plain 53 (by decide)).toS, sepsNil, sepsNil⟩)
+  exact ⟨res, hr, hm, hrep, hc, hnc, hinv, hex (by decide)⟩
 
 /-! ### a stray `/` or `\` in front of a parameter is dropped without a word (finding
     `detect:stray-slash-or-backslash-between-parameters`; the model agrees with the code) -/
